@@ -13,3 +13,15 @@ trap 'rm -rf "$SCRATCH"' EXIT
 "$VERIF_DIR/bin/instr" -detmaps -track github.com/sdcio/data-server/pkg/tree,github.com/sdcio/data-server/pkg/types -repo /repo -rt "$VERIF_DIR/rt" -out "$SCRATCH" ./pkg/tree ./pkg/types ./pkg/datastore/clients/schema >&2
 cd "$VERIF_DIR/harness"
 go build -tags "verif verifsched" -overlay "$SCRATCH/overlay.json" -o "$VERIF_DIR/bin/vcheck-t" ./cmd/vcheck
+# supplementary free-running pass: the same harness without instrumented sources, with the Go race detector
+python3 - "$SCRATCH" "$VERIF_DIR" <<'PY'
+import json,os,sys
+out,vd=sys.argv[1],sys.argv[2]
+rt=os.path.join(vd,'rt'); ov={}
+for root,_,files in os.walk(rt):
+    for f in files:
+        if f.endswith('.go') and not f.endswith('_test.go'):
+            p=os.path.join(root,f); ov[os.path.join('/repo/pkg/verifrt',os.path.relpath(p,rt))]=p
+json.dump({"Replace":ov},open(out+'/overlay-rt.json','w'))
+PY
+go build -race -tags "verif verifsched" -overlay "$SCRATCH/overlay-rt.json" -o "$VERIF_DIR/bin/vcheck-race" ./cmd/vcheck
